@@ -4,8 +4,30 @@
     null.* wrappers and narrow `flat` integers are outside this fragment (the
     last three are known findings D31 / D17d or are decided by the correspondence). *)
 From Plenc Require Import Base Varint Wire VarintProofs WireProofs JsonAny Codec SizeProofs DecBase
-  RoundTripBase RoundTrip Descriptor DescProofs JsonRoundTrip.
+  RoundTripBase RoundTrip Descriptor DescProofs JsonRoundTrip Output OutputProofs JsonWalk.
 Open Scope N_scope.
+
+(** what the walker emits for a value that is not in the data at all (the
+    omitted value of a map entry): null for pointer / null.* positions,
+    otherwise the walk of no bytes *)
+Definition zev (c : codec) : list ev :=
+  match c with
+  | CBool => [EvBool false]
+  | CInt _ | CFlat _ => [EvInt 0]
+  | CUint _ => [EvUint 0]
+  | CF32 => [EvF32 0]
+  | CF64 => [EvF64 0]
+  | CString | CBytes => [EvStr []]
+  | CTime _ => [EvTime zero_sec 0]
+  | CStruct _ _ _ => [EvStartObj; EvEndObj]
+  | CSliceVar _ | CSliceFix _ | CSliceLen _ => [EvStartArr; EvEndArr]
+  | CPtr _ | CNull _ => [EvRaw (ascii "null")]
+  | CMap kc _ => match kc with CString => [EvStartObj; EvEndObj] | _ => [EvStartArr; EvEndArr] end
+  | CJMap => [EvStartObj; EvEndObj]
+  | CJArr => [EvStartArr; EvEndArr]
+  | _ => []
+  end.
+
 
 (** ** the Outputter calls of a value *)
 Fixpoint vev (c : codec) (v : val) {struct c} : list ev :=
@@ -19,6 +41,7 @@ Fixpoint vev (c : codec) (v : val) {struct c} : list ev :=
   | (CString | CBytes), VStr s => [EvStr s]
   | CTime _, VTime s n => [EvTime s n]
   | CPtr c', VPtr (Some p) => vev c' p
+  | CNull c', VNull true p => vev c' p
   | CStruct _ _ fs, VStruct vs =>
     [EvStartObj]
     ++ flat_map (fun f => if omit (f_codec f) (slot vs (f_slot f)) then []
@@ -26,8 +49,31 @@ Fixpoint vev (c : codec) (v : val) {struct c} : list ev :=
     ++ [EvEndObj]
   | (CSliceVar c' | CSliceFix c' | CSliceLen c'), VSlice l =>
     [EvStartArr] ++ flat_map (vev c') l ++ [EvEndArr]
+  | CJMap, VJson _ (JObj l) => jev (JObj l)
+  | CJArr, VJson _ (JArr l) => jev (JArr l)
+  | CMap kc vc, VMap (Some es) =>
+    match kc with
+    | CString =>
+      (* string-keyed: an object; an omitted value shows as the zero / null token *)
+      [EvStartObj]
+      ++ flat_map (fun e => EvStr (str_of (fst e))
+                            :: (if omit vc (snd e) then zev vc else vev vc (snd e))) es
+      ++ [EvEndObj]
+    | _ =>
+      (* other keys: a list of {"key": k, "value": v} objects, omitted members absent *)
+      [EvStartArr]
+      ++ flat_map (fun e => [EvStartObj]
+                            ++ (if omit kc (fst e) then [] else EvName (ascii "key") :: vev kc (fst e))
+                            ++ (if omit vc (snd e) then [] else EvName (ascii "value") :: vev vc (snd e))
+                            ++ [EvEndObj]) es
+      ++ [EvEndArr]
+    end
   | _, _ => []
   end.
+
+(** a key codec whose descriptor says FieldTypeString *)
+Fixpoint strkey (c : codec) : bool :=
+  match c with CString | CBytes => true | CPtr c' | CNull c' => strkey c' | _ => false end.
 
 (** ** the fragment *)
 Fixpoint walk_ok (c : codec) {struct c} : Prop :=
@@ -35,7 +81,7 @@ Fixpoint walk_ok (c : codec) {struct c} : Prop :=
   | CBool | CF32 | CF64 | CString | CBytes | CTime false => True
   | CInt b | CUint b => bits_ok b
   | CFlat b => b = 64
-  | CPtr c' => walk_ok c'
+  | CPtr c' | CNull c' => walk_ok c'
   | CStruct _ n fs =>
     (fix all (l : list (fld codec)) : Prop :=
        match l with
@@ -46,6 +92,8 @@ Fixpoint walk_ok (c : codec) {struct c} : Prop :=
   | CSliceVar c' => plain_varint c' /\ walk_ok c'
   | CSliceFix c' => plain_fixed c'
   | CSliceLen c' => walk_ok c' /\ wire c' = WTLength
+  | CMap kc vc => walk_ok kc /\ walk_ok vc /\ (kc = CString \/ strkey kc = false)
+  | CJMap | CJArr => True
   | _ => False
   end.
 
@@ -58,20 +106,26 @@ Proof.
     using codec_ind'; cbn [walk_ok rt_ok]; intros H; auto; try contradiction.
   - subst. unfold bits_ok. auto.
   - split; [apply IH; exact H|apply walk_ok_top; exact H].
+  - split; [apply IH; exact H|apply walk_ok_top; exact H].
   - destruct H as (Hall & H1 & H2). split; [|split; assumption]. clear H1 H2.
     induction IH as [|f r Hf Hr IHr]; [exact I|]. destruct Hall as [(A & B & C) Hall]. split; [split; auto|apply IHr; exact Hall].
   - apply H.
   - destruct H as [A B]. split; [apply IH; exact A|]. split; [exact B|apply walk_ok_top; exact A].
+  - destruct H as (A & B & _). repeat split; [apply IHk; exact A|apply IHv; exact B|apply walk_ok_top; exact A|apply walk_ok_top; exact B].
 Qed.
 
 (** container lengths fit Go's int *)
 Fixpoint wkv (c : codec) (v : val) {struct c} : Prop :=
   match c, v with
   | CPtr c', VPtr (Some p) => wkv c' p
+  | CNull c', VNull _ p => wkv c' p
   | CStruct _ _ fs, VStruct vs =>
     (fix all (l : list (fld codec)) : Prop :=
        match l with [] => True | f :: r => wkv (f_codec f) (slot vs (f_slot f)) /\ all r end) fs
   | CSliceLen c', VSlice l => N.of_nat (length l) < two63 /\ Forall (wkv c') l
+  | CMap kc vc, VMap (Some es) =>
+    N.of_nat (length es) < two63 /\ Forall (fun e => wkv kc (fst e) /\ wkv vc (snd e)) es
+  | (CJMap | CJArr), VJson _ j => jcount j
   | _, _ => True
   end.
 
@@ -236,6 +290,119 @@ Proof.
   - inversion H; subst. rewrite Z.eqb_refl. reflexivity.
   - fold (find_elem r idx) in H. pose proof (find_some _ _ H) as [_ Hi]. apply Z.eqb_eq in Hi.
     rewrite Hi, E. apply (IH idx); exact H.
+Qed.
+
+(** ** the walk of a map *)
+Lemma walk_eq d data : walk d data =
+
+  match walk_scalar d data with
+  | Some w => w
+  | None =>
+    let 'Desc _ _ t _ es _ lt := d in
+    if t =? FTSlice then
+      let isobj := is_json_map d in
+      let open_ := if isobj then EvStartObj else EvStartArr in
+      let close_ := if isobj then EvEndObj else EvEndArr in
+      match es with
+      | [] => mkw [open_; close_] (Panic "Descriptor.readAsSlice d.Elements[0]")
+      | elt :: _ =>
+        let et := d_type elt in
+        let inner :=
+          if (et =? FTFloat32) || (et =? FTFloat64) || (et =? FTInt) || (et =? FTUint) || (et =? FTFlatInt) || (et =? FTBool) then
+            walk_packed (fun e b => match es with e0 :: _ => walk e0 b | [] => werr [] end) elt (S (length data)) data 0 []
+          else if (et =? FTStruct) || (et =? FTSlice) || (et =? FTString) || (et =? FTTime) then
+            let '(count, n) := read_varuint data in
+            if (n <? 0)%Z then werr [] else
+            match go_drop "Descriptor.readAsSlice" (Z.to_N n) data with
+            | Ok rest =>
+              let cnt := if count <? two63 then count else 0 in
+              walk_counted (fun e b => match es with e0 :: _ => walk e0 b | [] => werr [] end) elt (S (length data)) cnt rest (Z.to_N n) []
+            | r => wfail [] r
+            end
+          else werr [] in
+        mkw ([open_] ++ w_ev inner ++ [close_]) (w_out inner)
+      end
+    else if t =? FTStruct then
+      let sub := (fix subwalk (l : list desc) (e : desc) (b : bytes) : wres :=
+                    match l with
+                    | [] => werr []
+                    | x :: r => if (d_index x =? d_index e)%Z then walk x b else subwalk r e b
+                    end) es in
+      if is_json_map_entry d then
+        walk_fields sub es true (S (length data)) data 0 false false []
+      else if (lt =? LTMapEntry) && match es with k :: _ :: [] => negb (d_type k =? FTString) | _ => false end then
+        let w := walk_fields sub es false (S (length data)) data 0 false false [] in
+        mkw ([EvStartObj] ++ w_ev w ++ [EvEndObj]) (w_out w)
+      else
+        let w := walk_fields sub es false (S (length data)) data 0 false false [] in
+        mkw ([EvStartObj] ++ w_ev w ++ [EvEndObj]) (w_out w)
+    else if t =? FTJSONObject then walk_json (jfuel data) true data
+    else if t =? FTJSONArray then walk_json (jfuel data) false data
+    else werr []
+  end.
+Proof. destruct d. reflexivity. Qed.
+
+Lemma walk_entry_obj nm kd' vd' body : d_type kd' = FTString ->
+  walk (Desc 0 [] FTStruct nm [kd'; vd'] false LTMapEntry) body
+  = walk_fields (subwalk [kd'; vd']) [kd'; vd'] true (S (length body)) body 0 false false [].
+Proof.
+  intros H. rewrite walk_eq.
+  change (walk_scalar (Desc 0 [] FTStruct nm [kd'; vd'] false LTMapEntry) body) with (@None wres). cbv beta iota.
+  change (FTStruct =? FTSlice) with false. change (FTStruct =? FTStruct) with true. cbv iota.
+  unfold is_json_map_entry. cbn [d_type d_logical d_elems length Nat.eqb]. rewrite H.
+  change ((FTStruct =? FTStruct) && (LTMapEntry =? LTMapEntry) && true && (FTString =? FTString)) with true. cbv iota.
+  reflexivity.
+Qed.
+
+Lemma walk_entry_pair nm kd' vd' body : (d_type kd' =? FTString) = false ->
+  walk (Desc 0 [] FTStruct nm [kd'; vd'] false LTMapEntry) body
+  = (let w := walk_fields (subwalk [kd'; vd']) [kd'; vd'] false (S (length body)) body 0 false false [] in
+     mkw ([EvStartObj] ++ w_ev w ++ [EvEndObj]) (w_out w)).
+Proof.
+  intros H. rewrite walk_eq.
+  change (walk_scalar (Desc 0 [] FTStruct nm [kd'; vd'] false LTMapEntry) body) with (@None wres). cbv beta iota.
+  change (FTStruct =? FTSlice) with false. change (FTStruct =? FTStruct) with true. cbv iota.
+  unfold is_json_map_entry. cbn [d_type d_logical d_elems length Nat.eqb]. rewrite H.
+  change ((FTStruct =? FTStruct) && (LTMapEntry =? LTMapEntry) && true && false) with false. cbv iota.
+  destruct ((LTMapEntry =? LTMapEntry) && negb false); reflexivity.
+Qed.
+
+Lemma walk_map_outer nm kd' vd' data :
+  let ed := Desc 0 [] FTStruct nm [kd'; vd'] false LTMapEntry in
+  walk (Desc 0 [] FTSlice [] [ed] false LTMap) data =
+  (let isobj := d_type kd' =? FTString in
+   let inner :=
+     let '(count, n) := read_varuint data in
+     if (n <? 0)%Z then werr [] else
+     match go_drop "Descriptor.readAsSlice" (Z.to_N n) data with
+     | Ok rest =>
+       let cnt := if count <? two63 then count else 0 in
+       walk_counted (fun e b => walk ed b) ed (S (length data)) cnt rest (Z.to_N n) []
+     | r => wfail [] r
+     end in
+   mkw ([if isobj then EvStartObj else EvStartArr] ++ w_ev inner ++ [if isobj then EvEndObj else EvEndArr]) (w_out inner)).
+Proof.
+  intros ed. rewrite walk_eq.
+  change (walk_scalar (Desc 0 [] FTSlice [] [ed] false LTMap) data) with (@None wres). cbv beta iota.
+  change (FTSlice =? FTSlice) with true. cbv iota.
+  unfold is_json_map, is_json_map_entry, ed. cbn [d_type d_logical d_elems length Nat.eqb].
+  change ((FTSlice =? FTSlice) && (LTMap =? LTMap) && true) with true.
+  change ((FTStruct =? FTStruct) && (LTMapEntry =? LTMapEntry) && true) with true. cbn [andb].
+  change ((FTStruct =? FTFloat32) || (FTStruct =? FTFloat64) || (FTStruct =? FTInt) || (FTStruct =? FTUint) || (FTStruct =? FTFlatInt) || (FTStruct =? FTBool)) with false.
+  change ((FTStruct =? FTStruct) || (FTStruct =? FTSlice) || (FTStruct =? FTString) || (FTStruct =? FTTime)) with true.
+  cbv iota. reflexivity.
+Qed.
+
+
+Lemma strkey_type : forall kc kd, strkey kc = false -> descriptor_of kc = Ok kd -> (d_type kd =? FTString) = false.
+Proof.
+  induction kc; intros kd Hs Hd; cbn [strkey] in Hs; try discriminate Hs; cbn [descriptor_of] in Hd;
+    repeat match type of Hd with
+           | (do _ <- ?X; _) = _ => let E := fresh "E" in destruct X eqn:E; cbn [bind] in Hd; try discriminate Hd
+           end;
+    try discriminate Hd; injection Hd as <-; try reflexivity.
+  - match goal with |- context [with_explicit ?d0] => destruct d0 end. cbn [with_explicit d_type]. apply (IHkc _ Hs eq_refl).
+  - match goal with |- context [with_explicit ?d0] => destruct d0 end. cbn [with_explicit d_type]. apply (IHkc _ Hs eq_refl).
 Qed.
 
 Lemma find_elem_field : forall fs es f d0,
@@ -523,11 +690,271 @@ Proof.
   - inversion Hd; reflexivity.
   - destruct (descriptor_of c) as [d0| | | |] eqn:E; cbn [bind] in Hd; try discriminate. inversion Hd; subst.
     destruct d0. cbn [with_explicit d_type]. apply (IH Hok Hwt _ eq_refl).
+  - destruct (descriptor_of c) as [d0| | | |] eqn:E; cbn [bind] in Hd; try discriminate. inversion Hd; subst.
+    destruct d0. cbn [with_explicit d_type]. apply (IH Hok Hwt _ eq_refl).
   - match type of Hd with (do es <- ?X; _) = _ => destruct X as [es| | | |] end; cbn [bind] in Hd; try discriminate.
     inversion Hd; reflexivity.
   - destruct (descriptor_of c) as [d0| | | |] eqn:E; cbn [bind] in Hd; try discriminate. inversion Hd; reflexivity.
   - destruct (descriptor_of c) as [d0| | | |] eqn:E; cbn [bind] in Hd; try discriminate. inversion Hd; reflexivity.
 Qed.
+
+(** ** maps *)
+
+Lemma walk_empty : forall c d, walk_ok c -> descriptor_of c = Ok d ->
+  match c with CPtr _ | CNull _ => True | _ => walk d [] = wok (zev c) 0 end.
+Proof.
+  intros c d Hok Hd. destruct c; try exact I; cbn [walk_ok] in Hok; try contradiction; cbn [descriptor_of] in Hd.
+  - injection Hd as <-. reflexivity.
+  - injection Hd as <-. reflexivity.
+  - injection Hd as <-. reflexivity.
+  - injection Hd as <-. reflexivity.
+  - injection Hd as <-. reflexivity.
+  - injection Hd as <-. reflexivity.
+  - injection Hd as <-. reflexivity.
+  - injection Hd as <-. reflexivity.
+  - destruct compat; [contradiction|]. injection Hd as <-. reflexivity.
+  - match type of Hd with (do es <- ?X; _) = _ => destruct X as [es| | | |] end; cbn [bind] in Hd; try discriminate.
+    injection Hd as <-. reflexivity.
+  - destruct Hok as [Hpv _]. destruct (descriptor_of c) as [d0| | | |] eqn:E; cbn [bind] in Hd; try discriminate. injection Hd as <-.
+    assert (Hpt : packed_type (d_type d0) = true) by (destruct c; cbn [plain_varint] in Hpv; try contradiction; inversion E; reflexivity).
+    rewrite (walk_slice_packed d0 _ Hpt). reflexivity.
+  - destruct (descriptor_of c) as [d0| | | |] eqn:E; cbn [bind] in Hd; try discriminate. injection Hd as <-.
+    assert (Hpt : packed_type (d_type d0) = true) by (destruct c; cbn [plain_fixed] in Hok; try contradiction; inversion E; reflexivity).
+    rewrite (walk_slice_packed d0 _ Hpt). reflexivity.
+  - destruct Hok as [Hokc Hwc]. destruct (descriptor_of c) as [d0| | | |] eqn:E; cbn [bind] in Hd; try discriminate. injection Hd as <-.
+    rewrite (walk_slice_counted d0 _ (desc_counted c Hokc Hwc d0 E)). reflexivity.
+  - destruct Hok as (Hokk & Hokv & Hkey).
+    destruct (descriptor_of c1) as [kd| | | |] eqn:Ek; cbn [bind] in Hd; try discriminate.
+    destruct (descriptor_of c2) as [vd| | | |] eqn:Ev; cbn [bind] in Hd; try discriminate. injection Hd as <-.
+    rewrite walk_map_outer. cbv zeta.
+    assert (Et : forall nme, (d_type (with_field 1 nme kd) =? FTString) = match c1 with CString => true | _ => false end).
+    { intros nme. destruct (with_field_keeps 1 nme kd) as (_ & _ & T & _). rewrite T.
+      destruct Hkey as [->|Hs]; [injection Ek as <-; reflexivity|].
+      rewrite (strkey_type c1 kd Hs Ek). destruct c1; try reflexivity. discriminate Hs. }
+    rewrite Et. destruct c1; reflexivity.
+  - injection Hd as <-. reflexivity.
+  - injection Hd as <-. reflexivity.
+Qed.
+
+(** readAsMapEntry over a (key, value) descriptor pair, one step *)
+Lemma walk_entry_unfold walkd kd' vd' f rest consumed hk hv acc : rest <> [] ->
+  walk_fields walkd [kd'; vd'] true (S f) rest consumed hk hv acc =
+  (let '(wt, index, n) := read_tag rest in
+   if (n <=? 0)%Z then werr acc else
+   match go_drop "Descriptor.readAsStruct" (Z.to_N n) rest with
+   | Ok rest1 =>
+     let c1 := consumed + Z.to_N n in
+     match find_elem [kd'; vd'] index with
+     | None =>
+       match skip rest1 wt with
+       | Ok k => match go_drop "Descriptor.readAsStruct" k rest1 with
+                 | Ok rest2 => walk_fields walkd [kd'; vd'] true f rest2 (c1 + k) hk hv acc
+                 | r => wfail acc r
+                 end
+       | r => wfail acc r
+       end
+     | Some elt =>
+       let iskey := (d_index kd' =? index)%Z in
+       let body (fdata after : bytes) (c2 : N) :=
+         let wk := if negb iskey && negb hk then read_missing walkd kd' else wok [] 0 in
+         match w_out wk with
+         | Ok _ =>
+           let pre := acc ++ w_ev wk in
+           let w := walkd elt fdata in
+           match w_out w with
+           | Ok used =>
+             match go_drop "Descriptor.readAsStruct" used after with
+             | Ok rest3 => walk_fields walkd [kd'; vd'] true f rest3 (c2 + used) true (hv || negb iskey) (pre ++ w_ev w)
+             | r => wfail (pre ++ w_ev w) r
+             end
+           | r => mkw (pre ++ w_ev w) (match r with Ok _ => Err | x => x end)
+           end
+         | r => mkw (acc ++ w_ev wk) (match r with Ok _ => Err | x => x end)
+         end in
+       if wt =? WTLength then
+         let '(l, k) := read_varuint rest1 in
+         if (k <=? 0)%Z then werr acc else
+         match go_drop "Descriptor.readAsStruct" (Z.to_N k) rest1 with
+         | Ok rest2 =>
+           if len rest2 <? l then werr acc else
+           match go_take "Descriptor.readAsStruct" l rest2 with
+           | Ok fdata => body fdata rest2 (c1 + Z.to_N k)
+           | r => wfail acc r
+           end
+         | r => wfail acc r
+         end
+       else body rest1 rest1 c1
+     end
+   | r => wfail acc r
+   end).
+Proof.
+  intros H. destruct rest as [|b0 rest0]; [congruence|]. cbn [walk_fields andb].
+  destruct (read_tag (b0 :: rest0)) as [[wt index] n]. destruct (n <=? 0)%Z; [reflexivity|].
+  destruct (go_drop "Descriptor.readAsStruct" (Z.to_N n) (b0 :: rest0)); try reflexivity.
+  destruct (find_elem [kd'; vd'] index); [|reflexivity].
+  destruct (d_index kd' =? index)%Z; cbn [negb orb andb]; rewrite ?app_nil_r, ?Bool.orb_true_r; reflexivity.
+Qed.
+
+Section StringKeyEntry.
+  Variable vc : codec.
+  Variable vd : desc.
+  Hypothesis Hokv : walk_ok vc.
+  Hypothesis Hwkv : WKc vc.
+  Hypothesis Hdv : descriptor_of vc = Ok vd.
+
+  Let kd := simple FTString LTNone.
+  Let kd' := with_field 1 (ascii "key") kd.
+  Let vd' := with_field 2 (ascii "value") vd.
+  Let es2 := [kd'; vd'].
+
+  Lemma vd'_index : d_index vd' = 2%Z.
+  Proof. unfold vd'. destruct vd. reflexivity. Qed.
+  Lemma find_key : find_elem es2 1 = Some kd'.
+  Proof. reflexivity. Qed.
+  Lemma find_val : find_elem es2 2 = Some vd'.
+  Proof. unfold find_elem, es2. cbn [find]. change (d_index kd' =? 2)%Z with false. cbv iota. rewrite vd'_index. reflexivity. Qed.
+  Lemma sub_key b : subwalk es2 kd' b = walk kd b.
+  Proof. rewrite (subwalk_found es2 1 kd' b find_key). reflexivity. Qed.
+  Lemma sub_val b : subwalk es2 vd' b = walk vd b.
+  Proof. rewrite (subwalk_found es2 2 vd' b find_val). unfold vd'. apply walk_with_field. Qed.
+  Lemma vd'_explicit : d_explicit vd' = d_explicit vd.
+  Proof. unfold vd'. destruct vd. reflexivity. Qed.
+
+  (** what stands for an omitted value *)
+  Definition missing_val : list ev := if d_explicit vd then [EvRaw (ascii "null")] else zev vc.
+
+  Lemma read_missing_key : read_missing (subwalk es2) kd' = wok [EvStr []] 0.
+  Proof. unfold read_missing. change (d_explicit kd') with false. cbv iota. rewrite sub_key. reflexivity. Qed.
+
+  Lemma read_missing_val : read_missing (subwalk es2) vd' = wok missing_val 0.
+  Proof.
+    unfold read_missing, missing_val. rewrite vd'_explicit. destruct (d_explicit vd) eqn:Ex; [reflexivity|].
+    rewrite sub_val. pose proof (walk_empty vc vd Hokv Hdv) as H.
+    destruct vc; try exact H; cbn [descriptor_of] in Hdv;
+      (destruct (descriptor_of c) as [d0| | | |]; cbn [bind] in Hdv; try discriminate; injection Hdv as <-;
+       rewrite with_explicit_spec in Ex; discriminate).
+  Qed.
+
+  Lemma entry_end fuel c hk hv acc :
+    walk_fields (subwalk es2) es2 true fuel [] c hk hv acc
+    = wok (acc ++ (if hk then [] else [EvStr []]) ++ (if hv then [] else missing_val)) c.
+  Proof.
+    assert (E : walk_fields (subwalk es2) es2 true fuel [] c hk hv acc =
+                let w1 := if hk then wok [] 0 else read_missing (subwalk es2) kd' in
+                match w_out w1 with
+                | Ok _ => let w2 := if hv then wok [] 0 else read_missing (subwalk es2) vd' in
+                          match w_out w2 with
+                          | Ok _ => wok (acc ++ w_ev w1 ++ w_ev w2) c
+                          | r => mkw (acc ++ w_ev w1 ++ w_ev w2) (match r with Ok _ => Err | x => x end)
+                          end
+                | r => mkw (acc ++ w_ev w1) (match r with Ok _ => Err | x => x end)
+                end) by (destruct fuel; reflexivity).
+    rewrite E. cbv zeta. rewrite read_missing_key, read_missing_val. destruct hk, hv; reflexivity.
+  Qed.
+
+  Lemma entry_key_step : forall k more c hv acc f, k <> [] -> len k < two64 ->
+    walk_fields (subwalk es2) es2 true (S f) (enc CString (VStr k) (field_tag CString 1) ++ more) c false hv acc
+    = walk_fields (subwalk es2) es2 true f more (c + len (enc CString (VStr k) (field_tag CString 1))) true hv (acc ++ [EvStr k]).
+  Proof.
+    intros k more c hv acc f Hne Hl.
+    assert (Ee : enc CString (VStr k) (field_tag CString 1) = field_tag CString 1 ++ append_varuint (len k) ++ k) by reflexivity.
+    rewrite Ee, <- !app_assoc. unfold es2 at 1 2.
+    rewrite walk_entry_unfold by discriminate.
+    rewrite read_tag_field by lia. cbv beta iota.
+    change (Z.of_N (len (field_tag CString 1)) <=? 0)%Z with false. cbv iota.
+    rewrite N2Z.id, go_drop_app. fold es2. rewrite find_key. cbv zeta.
+    change (d_index kd' =? 1)%Z with true. cbn [negb andb orb wire N.eqb WTLength Pos.eqb].
+    rewrite read_append_varuint by exact Hl. cbv beta iota.
+    pose proof (append_varuint_length_bounds (len k)) as Hb.
+    replace (Z.of_N (len (append_varuint (len k))) <=? 0)%Z with false by (symmetry; apply Z.leb_gt; lia).
+    rewrite N2Z.id, go_drop_app. rewrite len_app.
+    replace (len k + len more <? len k) with false by (symmetry; apply N.ltb_ge; lia).
+    rewrite go_take_app. cbn [w_out wok w_ev]. rewrite app_nil_r. rewrite sub_key.
+    change (walk kd k) with (wok [EvStr k] (len k)). cbn [w_out wok w_ev]. rewrite go_drop_app.
+    rewrite Bool.orb_false_r. f_equal. rewrite !len_app. lia.
+  Qed.
+
+  Lemma entry_val_step : forall x more c hk hv acc f, wfv vc x -> fits vc x -> wkv vc x ->
+    walk_fields (subwalk es2) es2 true (S f) (enc vc x (field_tag vc 2) ++ more) c hk hv acc
+    = walk_fields (subwalk es2) es2 true f more (c + len (enc vc x (field_tag vc 2))) true true
+        (acc ++ (if hk then [] else [EvStr []]) ++ vev vc x).
+  Proof.
+    intros x more c hk hv acc f Hw Hf Hk.
+    set (tg := field_tag vc 2).
+    destruct (tagged_enc_shape vc (walk_ok_rt _ Hokv) (walk_ok_top _ Hokv) x 2 Hw Hf) as [ShL ShS]. fold tg in ShL, ShS.
+    destruct (Hwkv x vd Hdv Hw Hf Hk) as [WkL WkS].
+    pose proof (field_tag_nonempty vc 2) as Htg. fold tg in Htg.
+    assert (Hne : forall p, tg ++ p <> []).
+    { intros p E0. apply (f_equal (@length N)) in E0. rewrite app_length in E0. unfold len in Htg. cbn [length] in E0. lia. }
+    assert (Hwk : (if negb false && negb hk then read_missing (subwalk es2) kd' else wok [] 0)
+                  = wok (if hk then [] else [EvStr []]) 0).
+    { destruct hk; cbn [negb andb]; [reflexivity|apply read_missing_key]. }
+    destruct (N.eq_dec (wire vc) WTLength) as [Hwt|Hwt].
+    - destruct (ShL Hwt) as [Ee Hlen]. rewrite Ee, <- !app_assoc. unfold es2 at 1 2.
+      rewrite walk_entry_unfold by apply Hne.
+      unfold tg at 1. rewrite read_tag_field by lia. fold tg. cbv beta iota.
+      replace (Z.of_N (len tg) <=? 0)%Z with false by (symmetry; apply Z.leb_gt; lia).
+      rewrite N2Z.id, go_drop_app. fold es2. rewrite find_val. cbv zeta.
+      change (d_index kd' =? 2)%Z with false. rewrite Hwk.
+      replace (wire vc =? WTLength) with true by (symmetry; apply N.eqb_eq; exact Hwt).
+      rewrite read_append_varuint by exact Hlen. cbv beta iota.
+      pose proof (append_varuint_length_bounds (len (enc vc x []))) as Hb.
+      replace (Z.of_N (len (append_varuint (len (enc vc x [])))) <=? 0)%Z with false by (symmetry; apply Z.leb_gt; lia).
+      rewrite N2Z.id, go_drop_app. rewrite len_app.
+      replace (len (enc vc x []) + len more <? len (enc vc x [])) with false by (symmetry; apply N.ltb_ge; lia).
+      rewrite go_take_app. cbn [w_out wok w_ev]. rewrite sub_val, (WkL Hwt). cbn [w_out wok w_ev]. rewrite go_drop_app.
+      cbn [negb]. rewrite Bool.orb_true_r, <- app_assoc. f_equal. rewrite !len_app. lia.
+    - pose proof (ShS Hwt) as Ee. rewrite Ee, <- !app_assoc. unfold es2 at 1 2.
+      rewrite walk_entry_unfold by apply Hne.
+      unfold tg at 1. rewrite read_tag_field by lia. fold tg. cbv beta iota.
+      replace (Z.of_N (len tg) <=? 0)%Z with false by (symmetry; apply Z.leb_gt; lia).
+      rewrite N2Z.id, go_drop_app. fold es2. rewrite find_val. cbv zeta.
+      change (d_index kd' =? 2)%Z with false. rewrite Hwk.
+      replace (wire vc =? WTLength) with false by (symmetry; apply N.eqb_neq; exact Hwt).
+      cbn [w_out wok w_ev]. rewrite sub_val, (WkS Hwt more). cbn [w_out wok w_ev]. rewrite go_drop_app.
+      cbn [negb]. rewrite Bool.orb_true_r, <- app_assoc. f_equal. rewrite !len_app. lia.
+  Qed.
+
+  (** the value of an entry in the JSON image *)
+  Definition mval (x : val) : list ev := if omit vc x then missing_val else vev vc x.
+
+  Lemma enc_tagged_nonempty x : wfv vc x -> fits vc x -> (1 <= length (enc vc x (field_tag vc 2)))%nat.
+  Proof.
+    intros Hw Hf. pose proof (field_tag_nonempty vc 2) as Htg.
+    destruct (tagged_enc_shape vc (walk_ok_rt _ Hokv) (walk_ok_top _ Hokv) x 2 Hw Hf) as [ShL ShS].
+    destruct (N.eq_dec (wire vc) WTLength) as [Hwt|Hwt].
+    - destruct (ShL Hwt) as [-> _]. rewrite app_length. unfold len in Htg. lia.
+    - rewrite (ShS Hwt). rewrite app_length. unfold len in Htg. lia.
+  Qed.
+
+  (** one entry of a string-keyed map *)
+  Lemma walk_string_entry : forall k x fuel, len k < two64 ->
+    (omit vc x = true \/ wfv vc x) -> fits vc x -> wkv vc x ->
+    let body := entry_body CString vc (VStr k, x) in
+    (length body < fuel)%nat ->
+    walk_fields (subwalk es2) es2 true fuel body 0 false false [] = wok (EvStr k :: mval x) (len body).
+  Proof.
+    intros k x fuel Hl Hwx Hf Hk body Hfuel. unfold body, entry_body, mval in *. cbn [fst snd omit] in *.
+    destruct k as [|b0 k'].
+    - (* empty key: omitted *)
+      destruct (omit vc x) eqn:Eo; cbn [app] in *.
+      + rewrite entry_end. reflexivity.
+      + destruct Hwx as [Hwx|Hwx]; [congruence|]. destruct fuel as [|f]; [lia|].
+        rewrite <- (app_nil_r (enc vc x (field_tag vc 2))) at 1.
+        rewrite entry_val_step by assumption. rewrite entry_end. cbn [app]. rewrite app_nil_r, N.add_0_l. reflexivity.
+    - destruct fuel as [|f]; [lia|].
+      rewrite entry_key_step by (try discriminate; exact Hl).
+      destruct (omit vc x) eqn:Eo; cbn [app] in *.
+      + rewrite entry_end. cbn [app]. rewrite N.add_0_l, app_nil_r. reflexivity.
+      + destruct Hwx as [Hwx|Hwx]; [congruence|].
+        pose proof (enc_tagged_nonempty x Hwx Hf) as Hne.
+        assert (Hke : (1 <= length (enc CString (VStr (b0 :: k')) (field_tag CString 1)))%nat) by (cbn; lia).
+        rewrite app_length in Hfuel.
+        destruct f as [|f']; [lia|].
+        rewrite <- (app_nil_r (enc vc x (field_tag vc 2))) at 1.
+        rewrite entry_val_step by assumption. rewrite entry_end. cbn [app]. rewrite app_nil_r, N.add_0_l, len_app. reflexivity.
+  Qed.
+End StringKeyEntry.
 
 Lemma ubits64_u64 z : ubits 64 z = u64 z.
 Proof. reflexivity. Qed.
@@ -575,6 +1002,13 @@ Proof.
     destruct v as [| | | | |s ns| | | | | | |]; try contradiction. destruct Hw as [Hs Hn].
     split; [intros _|intros Hwt; exfalso; apply Hwt; reflexivity]. cbn [enc frame_tag vev].
     apply walk_leaf_time; assumption.
+  - (* null.* *) cbn [descriptor_of] in Hd.
+    destruct (descriptor_of c) as [d0| | | |] eqn:E; cbn [bind] in Hd; try discriminate. injection Hd as <-.
+    cbn [wfv] in Hw. destruct v as [| | | | | | |[|] p| | | | |]; try contradiction.
+    cbn [fits wkv] in Hf, Hk. destruct (IH Hok p d0 E Hw Hf Hk) as [L S0].
+    cbn [wire enc vev]. split.
+    + intros Hwt. rewrite walk_with_explicit. apply L. exact Hwt.
+    + intros Hwt more. rewrite walk_with_explicit. apply S0. exact Hwt.
   - (* pointer *) cbn [descriptor_of] in Hd.
     destruct (descriptor_of c) as [d0| | | |] eqn:E; cbn [bind] in Hd; try discriminate. injection Hd as <-.
     cbn [wfv] in Hw. destruct v as [| | | | | |[p|]| | | | | |]; try contradiction.
@@ -666,10 +1100,88 @@ Proof.
     + rewrite Forall_forall in *. intros x Hx. destruct (Hfits x Hx) as [Hfx Hlx]. split; [exact Hlx|].
       destruct (IH Hokc x d0 E (Hw x Hx) Hfx (Hks x Hx)) as [L _]. apply L. exact Hwc.
     + pose proof (frames_length (fun x => enc c x []) l). rewrite !app_length. lia.
+  - (* map *)
+    destruct Hok as (Hokk & Hokv & Hkey). cbn [descriptor_of] in Hd.
+    destruct (descriptor_of kc) as [kd| | | |] eqn:Ek; cbn [bind] in Hd; try discriminate.
+    destruct (descriptor_of vc) as [vd| | | |] eqn:Ev; cbn [bind] in Hd; try discriminate. injection Hd as <-.
+    cbn [wfv] in Hw. destruct v as [| | | | | | | | | |[es|]| |]; try contradiction.
+    destruct Hf as [Hcnt Hfe]. cbn [map_entries_of] in Hcnt, Hfe. destruct Hk as [Hc63 Hks].
+    split; [intros Hwt; not_length Hwt|intros _ more].
+    cbn [enc app].
+    change (flat_map (fun e : val * val => lenframe ((if omit kc (fst e) then [] else enc kc (fst e) (field_tag kc 1))
+                                                     ++ (if omit vc (snd e) then [] else enc vc (snd e) (field_tag vc 2)))) es)
+      with (flat_map (fun e => lenframe (entry_body kc vc e)) es).
+    rewrite walk_map_outer. cbv zeta.
+    rewrite <- app_assoc, read_append_varuint by exact Hcnt.
+    pose proof (append_varuint_length_bounds (N.of_nat (length es))) as Hb.
+    replace (Z.of_N (len (append_varuint (N.of_nat (length es)))) <? 0)%Z with false by (symmetry; apply Z.ltb_ge; lia).
+    rewrite N2Z.id, go_drop_app.
+    replace (N.of_nat (length es) <? two63) with true by (symmetry; apply N.ltb_lt; exact Hc63).
+    set (kd' := with_field 1 _ kd). set (vd' := with_field 2 _ vd).
+    set (ed := Desc 0 [] FTStruct _ [kd'; vd'] false LTMapEntry).
+    assert (Hkt : d_type kd' = d_type kd) by (unfold kd'; destruct kd; reflexivity).
+    destruct Hkey as [->|Hs].
+    + (* string keys: an object *)
+      injection Ek as <-. rewrite Hkt. change (d_type (simple FTString LTNone) =? FTString) with true. cbv iota.
+      rewrite (walk_counted_list (fun e b => walk ed b) ed (fun e => entry_body CString vc e)
+                 (fun e => EvStr (str_of (fst e)) :: (if omit vc (snd e) then zev vc else vev vc (snd e)))).
+      * cbn [w_ev w_out wok app vev]. rewrite len_app. reflexivity.
+      * rewrite Forall_forall in *. intros [k x] He. destruct (Hfe _ He) as (Hfk & Hfx & Hl). destruct (Hw _ He) as [Hwk Hwx].
+        destruct (Hks _ He) as [_ Hkx]. cbn [fst snd] in *. split; [exact Hl|].
+        unfold ed. rewrite walk_entry_obj by (rewrite Hkt; reflexivity).
+        assert (Hk0 : exists s, k = VStr s /\ len s < two64).
+        { destruct Hwk as [Ho|Hwk].
+          - destruct k; cbn [omit] in Ho; try discriminate. exists s. split; [reflexivity|]. exact Hfk.
+          - cbn [wfv] in Hwk. destruct k; try contradiction. exists s. split; [reflexivity|]. exact Hfk. }
+        destruct Hk0 as (s & -> & Hls). cbn [str_of].
+        pose proof (walk_string_entry vc vd Hokv (IHv Hokv) Ev s x (S (length (entry_body CString vc (VStr s, x)))) Hls Hwx Hfx Hkx) as HE.
+        cbv zeta in HE.
+        assert (HE2 : walk_fields (subwalk [kd'; vd']) [kd'; vd'] true (S (length (entry_body CString vc (VStr s, x))))
+                        (entry_body CString vc (VStr s, x)) 0 false false []
+                      = wok (EvStr s :: mval vc vd x) (len (entry_body CString vc (VStr s, x)))) by (apply HE; lia).
+        rewrite HE2. unfold mval, missing_val.
+        destruct (omit vc x) eqn:Eo; [|reflexivity].
+        destruct (d_explicit vd) eqn:Ex; [|reflexivity].
+        apply (explicit_presence_iff vc vd Ev) in Ex. destruct Ex as [[c' ->]|[c' ->]]; reflexivity.
+      * pose proof (frames_length (fun e => entry_body CString vc e) es). rewrite !app_length. lia.
+    + (* other keys: a list of key/value objects *)
+      rewrite Hkt, (strkey_type kc kd Hs Ek). cbv iota.
+      set (pfs := [mkfld 0 1 (ascii "key") kc; mkfld 1 2 (ascii "value") vc]).
+      rewrite (walk_counted_list (fun e b => walk ed b) ed (fun e => entry_body kc vc e)
+                 (fun e => [EvStartObj] ++ (if omit kc (fst e) then [] else EvName (ascii "key") :: vev kc (fst e))
+                           ++ (if omit vc (snd e) then [] else EvName (ascii "value") :: vev vc (snd e)) ++ [EvEndObj])).
+      * assert (Hne : match kc with CString => False | _ => True end) by (destruct kc; try exact I; discriminate Hs).
+        cbn [w_ev w_out wok app]. rewrite len_app. destruct kc; try contradiction; reflexivity.
+      * rewrite Forall_forall in *. intros [k x] He. destruct (Hfe _ He) as (Hfk & Hfx & Hl). destruct (Hw _ He) as [Hwk Hwx].
+        destruct (Hks _ He) as [Hkk Hkx]. cbn [fst snd] in *. split; [exact Hl|].
+        unfold ed. rewrite walk_entry_pair by (rewrite Hkt; apply (strkey_type kc kd Hs Ek)).
+        assert (Hes : Forall2 (fun f e => exists d0, descriptor_of (f_codec f) = Ok d0 /\ e = with_field (f_index f) (f_name f) d0) pfs [kd'; vd']).
+        { constructor; [exists kd; auto|]. constructor; [exists vd; auto|constructor]. }
+        assert (Hnd : NoDup (map (fun f => f_index f) pfs)) by (repeat constructor; cbn; intuition discriminate).
+        assert (Ebody : entry_body kc vc (k, x) = flat_map (fenc [k; x]) pfs).
+        { unfold entry_body, pfs, fenc, slot. cbn [flat_map fst snd f_codec f_slot f_index nth]. rewrite app_nil_r. reflexivity. }
+        cbv zeta. rewrite Ebody.
+        rewrite (fields_walk pfs [kd'; vd'] Hes Hnd pfs [k; x] 0 false false [] (S (length (flat_map (fenc [k; x]) pfs)))).
+        -- cbn [w_ev w_out wok app]. rewrite N.add_0_l. unfold pfs, fev, slot.
+           cbn [flat_map f_codec f_slot f_name nth]. rewrite app_nil_r, <- app_assoc. reflexivity.
+        -- apply incl_refl.
+        -- unfold pfs. constructor; [cbn [f_codec f_index]; split; [exact Hokk|split; [lia|apply IHk; exact Hokk]]|].
+           constructor; [cbn [f_codec f_index]; split; [exact Hokv|split; [lia|apply IHv; exact Hokv]]|constructor].
+        -- unfold pfs, slot. constructor; [cbn [f_codec f_slot nth]; repeat split; assumption|].
+           constructor; [cbn [f_codec f_slot nth]; repeat split; assumption|constructor].
+        -- lia.
+      * pose proof (frames_length (fun e => entry_body kc vc e) es). rewrite !app_length. lia.
+  - (* JSON object *)
+    cbn [wfv] in Hw. destruct v as [| | | | | | | | | | |nm j|]; try contradiction. destruct j as [| | | | | |l|]; try contradiction.
+    cbn [fits wkv] in Hf, Hk. split; [intros Hwt; not_length Hwt|intros _ more].
+    cbn [vev]. apply walk_desc_jmap; assumption.
+  - (* JSON array *)
+    cbn [wfv] in Hw. destruct v as [| | | | | | | | | | |nm j|]; try contradiction. destruct j as [| | | | |l| |]; try contradiction.
+    cbn [fits wkv] in Hf, Hk. split; [intros Hwt; not_length Hwt|intros _ more].
+    cbn [vev]. apply walk_desc_jarr; assumption.
 Qed.
 
 (** ** through the JSON outputter: the value in the JSON data model *)
-From Plenc Require Import Output OutputProofs JsonWalk.
 
 Section Render.
   Variable tok : ev -> bytes.
@@ -681,17 +1193,30 @@ Section Render.
     match c, v with
     | (CString | CBytes), VStr s => TScalar (SStr s)
     | CPtr c', VPtr (Some p) => vtree c' p
+    | CNull c', VNull true p => vtree c' p
     | CStruct _ _ fs, VStruct vs =>
       TObj (flat_map (fun f => if omit (f_codec f) (slot vs (f_slot f)) then []
                                else [(f_name f, vtree (f_codec f) (slot vs (f_slot f)))]) fs)
     | (CSliceVar c' | CSliceFix c' | CSliceLen c'), VSlice l => TArr (map (vtree c') l)
+    | CJMap, VJson _ (JObj l) => jtree tok (JObj l)
+    | CJArr, VJson _ (JArr l) => jtree tok (JArr l)
     | _, _ => TScalar (STok (match vev c v with e :: _ => tok e | [] => [] end))
     end.
 
-  Lemma vev_ops : forall c, walk_ok c -> forall v, wfv c v -> map (oop_of tok) (vev c v) = ops_of (vtree c v).
+  (** maps render through the outputter's key / value state rather than as a
+      call tree of this shape: the rendering theorem is about map-free types *)
+  Fixpoint nomaps (c : codec) : bool :=
+    match c with
+    | CMap _ _ | CMapProto _ _ => false
+    | CNull c' | CPtr c' | CSliceVar c' | CSliceFix c' | CSliceLen c' | CSliceProto c' => nomaps c'
+    | CStruct _ _ fs => forallb (fun f => nomaps (f_codec f)) fs
+    | _ => true
+    end.
+
+  Lemma vev_ops : forall c, walk_ok c -> nomaps c = true -> forall v, wfv c v -> map (oop_of tok) (vev c v) = ops_of (vtree c v).
   Proof.
     induction c as [ |b|b|b| | | | |compat| |c IH|c IH|nm n fs IH|c IH|c IH|c IH|c IH|kc vc IHk IHv|kc vc IHk IHv| | | ]
-      using codec_ind'; intros Hok v Hw; cbn [walk_ok] in Hok; try contradiction; cbn [wfv] in Hw.
+      using codec_ind'; intros Hok Hnm v Hw; cbn [walk_ok] in Hok; try contradiction; cbn [nomaps] in Hnm; try discriminate Hnm; cbn [wfv] in Hw.
     - destruct v; try contradiction; reflexivity.
     - destruct v; try contradiction; reflexivity.
     - destruct v; try contradiction; reflexivity.
@@ -701,32 +1226,38 @@ Section Render.
     - destruct v; try contradiction; reflexivity.
     - destruct v; try contradiction; reflexivity.
     - destruct v; try contradiction; reflexivity.
+    - destruct v as [| | | | | | |[|] p| | | | |]; try contradiction. cbn [vev vtree]. apply IH; assumption.
     - destruct v as [| | | | | |[p|]| | | | | |]; try contradiction. cbn [vev vtree]. apply IH; assumption.
     - destruct v as [| | | | | | | |vs| | | |]; try contradiction. destruct Hw as [_ Hw]. destruct Hok as [Hall _].
       cbn [vev vtree ops_of]. rewrite map_app. cbn [map oop_of]. f_equal. rewrite map_app. cbn [map oop_of]. f_equal.
       induction IH as [|f r Hf Hr IHr]; [reflexivity|].
+      cbn [forallb] in Hnm. apply andb_true_iff in Hnm. destruct Hnm as [Hn1 Hn2].
       destruct Hall as [(A & _) Hall]. destruct Hw as [Hwf Hw]. cbn [flat_map].
-      rewrite map_app, (IHr Hall Hw).
+      rewrite map_app, (IHr Hall Hn2 Hw).
       destruct (omit (f_codec f) (slot vs (f_slot f))) eqn:Eo; [reflexivity|].
       destruct Hwf as [Hwf|Hwf]; [congruence|]. cbn [map oop_of flat_map app fst snd].
-      rewrite (Hf A _ Hwf). reflexivity.
+      rewrite (Hf A Hn1 _ Hwf). reflexivity.
     - destruct v as [| | | | | | | | |l| | |]; try contradiction. destruct Hok as [_ Hokc].
       cbn [vev vtree ops_of]. rewrite map_app. cbn [map oop_of]. f_equal. rewrite map_app. cbn [map oop_of]. f_equal.
-      induction Hw as [|x l Hx Hl IHl]; [reflexivity|]. cbn [flat_map map]. rewrite map_app, IHl, (IH Hokc x Hx). reflexivity.
+      induction Hw as [|x l Hx Hl IHl]; [reflexivity|]. cbn [flat_map map]. rewrite map_app, IHl, (IH Hokc Hnm x Hx). reflexivity.
     - destruct v as [| | | | | | | | |l| | |]; try contradiction.
       assert (Hokc : walk_ok c) by (destruct c; cbn [plain_fixed] in Hok; try contradiction; exact I).
       cbn [vev vtree ops_of]. rewrite map_app. cbn [map oop_of]. f_equal. rewrite map_app. cbn [map oop_of]. f_equal.
-      induction Hw as [|x l Hx Hl IHl]; [reflexivity|]. cbn [flat_map map]. rewrite map_app, IHl, (IH Hokc x Hx). reflexivity.
+      induction Hw as [|x l Hx Hl IHl]; [reflexivity|]. cbn [flat_map map]. rewrite map_app, IHl, (IH Hokc Hnm x Hx). reflexivity.
     - destruct v as [| | | | | | | | |l| | |]; try contradiction. destruct Hok as [Hokc _].
       cbn [vev vtree ops_of]. rewrite map_app. cbn [map oop_of]. f_equal. rewrite map_app. cbn [map oop_of]. f_equal.
-      induction Hw as [|x l Hx Hl IHl]; [reflexivity|]. cbn [flat_map map]. rewrite map_app, IHl, (IH Hokc x Hx). reflexivity.
+      induction Hw as [|x l Hx Hl IHl]; [reflexivity|]. cbn [flat_map map]. rewrite map_app, IHl, (IH Hokc Hnm x Hx). reflexivity.
+    - destruct v as [| | | | | | | | | | |nm j|]; try contradiction. destruct j as [| | | | | |l|]; try contradiction.
+      cbn [vev vtree]. apply jev_ops.
+    - destruct v as [| | | | | | | | | | |nm j|]; try contradiction. destruct j as [| | | | |l| |]; try contradiction.
+      cbn [vev vtree]. apply jev_ops.
   Qed.
 
   (** C13, end to end for a struct type: Marshal's output, walked with the
       type's Descriptor into a new JSON outputter, is consumed exactly and
       renders the value's image in the JSON data model *)
   Theorem walk_renders_struct : forall nm n fs vs d,
-    walk_ok (CStruct nm n fs) -> descriptor_of (CStruct nm n fs) = Ok d ->
+    walk_ok (CStruct nm n fs) -> nomaps (CStruct nm n fs) = true -> descriptor_of (CStruct nm n fs) = Ok d ->
     wfv (CStruct nm n fs) (VStruct vs) -> fits (CStruct nm n fs) (VStruct vs) -> wkv (CStruct nm n fs) (VStruct vs) ->
     let data := enc (CStruct nm n fs) (VStruct vs) [] in
     let w := walk d data in
@@ -734,9 +1265,10 @@ Section Render.
     (do j <- o_run jout_init (map (oop_of tok) (w_ev w)); o_done j)
     = Ok (render 0 false (vtree (CStruct nm n fs) (VStruct vs)) ++ [10]).
   Proof.
-    intros nm n fs vs d Hok Hd Hw Hf Hk data w.
+    intros nm n fs vs d Hok Hnm Hd Hw Hf Hk data w.
     destruct (walk_enc _ Hok (VStruct vs) d Hd Hw Hf Hk) as [L _]. specialize (L eq_refl).
     unfold w, data. rewrite L. cbn [w_out w_ev wok]. split; [reflexivity|].
-    rewrite (vev_ops _ Hok _ Hw). apply output_render.
+    rewrite (vev_ops _ Hok Hnm _ Hw). apply output_render.
   Qed.
 End Render.
+
